@@ -602,14 +602,14 @@ func (e *Exec) checkFrame(st *State, n ast.Node) {
 			conds = append(conds, mkNe(x, r))
 		}
 		if now.Sort.Kind != KArray {
-			e.oblige(st, "frame", key, mkEq(now, was), n, nil)
+			e.oblige(st, "frame", kind+":"+key, mkEq(now, was), n, nil)
 			return
 		}
 		for _, pr := range elems[id] {
 			conds = append(conds, mkNe(x, pr[0]))
 		}
 		g := mkForall([]*Term{x}, mkImplies(mkAnd(conds...), mkEq(mkSelect(now, x), mkSelect(was, x))))
-		e.oblige(st, "frame", key, g, n, nil)
+		e.oblige(st, "frame", kind+":"+key, g, n, nil)
 		// arrays with single-element permissions: every other element is unchanged
 		for _, pr := range elems[id] {
 			y := mkVar("y!frame", SInt)
@@ -621,7 +621,7 @@ func (e *Exec) checkFrame(st *State, n ast.Node) {
 				cs = append(cs, mkNe(pr[0], r))
 			}
 			g2 := mkForall([]*Term{y}, mkImplies(mkAnd(cs...), mkEq(mkSelect(mkSelect(now, pr[0]), y), mkSelect(mkSelect(was, pr[0]), y))))
-			e.oblige(st, "frame", key+"[elem]", g2, n, nil)
+			e.oblige(st, "frame", kind+":"+key+"[elem]", g2, n, nil)
 		}
 	}
 	for k, now := range st.heap {
